@@ -130,6 +130,13 @@ func (c *Command) UnmarshalXML(d *xml.Decoder, start xml.StartElement) error {
 				err = d.DecodeElement(&nt, &tt)
 				c.CommandElements = append(c.CommandElements, &nt)
 			case "x":
+				if tt.Name.Space != "jabber:x:data" {
+					// some other extension that happens to be called <x/>: keep it as a generic node
+					n := Node{}
+					err = d.DecodeElement(&n, &tt)
+					c.CommandElements = append(c.CommandElements, &n)
+					break
+				}
 				f := Form{}
 				err = d.DecodeElement(&f, &tt)
 				c.CommandElements = append(c.CommandElements, &f)
